@@ -8,6 +8,11 @@
       A.lrscale(einv,dinv); b.hadamard(einv)`);
   * `sanitize` / `desanitize`: the `time_limit` representation (`+∞ ↔ f64::MAX`);
   * `loadSettings`: which settings the loaded solver is built with.
+
+  The post-parse logic of `load_from_file` (validation, error kinds, the call to
+  `DefaultSolver::new`) and the whole record `save_to_file` writes are modelled in
+  `ClarabelModel/JsonLoad.lean` (built on the definitions of this file); the serde
+  representation of the cone list in `ClarabelModel/JsonCones.lean`.
 -/
 import ClarabelModel.Update
 
